@@ -580,7 +580,7 @@ func (e *Exec) next(fr *frame, it Value, in *ssa.Next) Value {
 			}
 			// symbolic iteration order: pick any remaining entry
 			i := 0
-			if len(x.left) > 1 && e.MapOrderSymbolic {
+			if len(x.left) > 1 && e.MapOrderSymbolic && orderMatters(x.m) {
 				i = e.Choose(len(x.left), "maporder")
 			}
 			en := x.left[i]
@@ -623,6 +623,21 @@ func (e *Exec) next(fr *frame, it Value, in *ssa.Next) Value {
 		return Tuple{sym.True, sym.BVC(64, uint64(pos)), res[0]}
 	}
 	panic(fmt.Sprintf("next on %T", it))
+}
+
+// orderMatters: symbolic iteration order is explored for the maps of the object model (values of a
+// type declared in package spec); maps of the runtime environment (caches, name indexes) iterate
+// in insertion order.
+func orderMatters(m *Map) bool {
+	if m == nil {
+		return false
+	}
+	t := m.VT
+	if p, ok := t.(*types.Pointer); ok {
+		t = p.Elem()
+	}
+	n, ok := t.(*types.Named)
+	return ok && n.Obj().Pkg() != nil && n.Obj().Pkg().Path() == "github.com/go-openapi/spec"
 }
 
 func (x *mapIter) mKT(in *ssa.Next) types.Type {
